@@ -372,3 +372,57 @@ try:
     run_paths(K1, {'a': 13}, True, True)
 except Exception:
     pass
+
+
+# ------------------------------------------------------------------ classes with custom converters: constructor vs data path
+
+from pane.converters import Converter
+from pane.errors import ParseInterrupt, WrongTypeError
+
+
+class Mark(Converter):
+    def expected(self, plural=False):
+        return 'marked int'
+
+    def try_convert(self, val):
+        if isinstance(val, int):
+            return ('m', val)
+        raise ParseInterrupt()
+
+    def collect_errors(self, val):
+        return None if isinstance(val, int) else WrongTypeError('marked int', val)
+
+    def into_data(self, val):
+        return val
+
+
+class K4a(PaneBase, custom={int: Mark()}):
+    n: int = 0
+
+
+class K4b(PaneBase):
+    n: int = field(default=0, converter=Mark())
+
+
+class K4c(PaneBase):
+    n: int = 0
+
+
+for _c in (K4a, K4b, K4c):
+    make_converter(_c)
+    try:
+        _c(n=1)
+        _c.from_data({'n': 1})
+    except Exception:
+        pass
+
+
+@obligation(pre="0 <= which <= 2", witnesses=(0,), timeout=120)
+def body_custom_converters(which: int, i: int, pos: bool) -> int:
+    """Cls(...) equals Cls.from_data(...) of the same fields also when the class (0) or the field (1) carries a custom converter; 2 = control"""
+    cls = K4a if which == 0 else (K4b if which == 1 else K4c)
+    x = cls(i) if pos else cls(n=i)
+    y = cls.from_data({'n': i})
+    if not eqv(x.n, y.n):
+        return 2
+    return 0
